@@ -159,6 +159,8 @@ const BF3_OPTIONS: &[&str] = &[
     "", "redirect=a", "redirect-rule=a", "redirect=b", "redirect=a:5", "redirect-rule=a:5", "script,redirect=a", "script,redirect-rule=a", "csp=d1", "csp=d2", "removeparam=x",
     "removeparam=y", "match-case", "important", "websocket", "ping", "other", "font", "media", "object", "subdocument", "~script", "~image",
     "~script,~image", "1p", "3p", "script,3p", "image",
+    // the same two domains under every combination of signs
+    "domain=example.com|tracker.co.uk", "domain=example.com|~tracker.co.uk", "domain=~example.com|tracker.co.uk", "domain=~example.com|~tracker.co.uk",
 ];
 
 /// Alias normalisation, written from the option documentation (not from /repo).
